@@ -40,6 +40,9 @@ def run(ctx, chk):
                            sample={"type": t, "config": cfg, "rejected_from_bytes": o.nset().min(), "reason": "119-byte capacity"})
                 continue
             variant, struct, sterm = unwrap_message(o.term)
+            if struct not in HDR:
+                chk.ob(False, "C15/unexpected-message/%s" % struct, "a binary-payload message type [%s] decodes to %s, which carries no binary payload" % (cfg, struct))
+                continue
             path, hdr, t = HDR[struct]
             flat = flatten(sterm)
             d = flat.get(path)
